@@ -117,6 +117,64 @@ def part_histories(ck, n, G, D, seed, nwalks, steps):
     ck.traces_validated += nwalks
     ck.nontrivial("histories:%d" % n)
     ck.extra["history_steps"] = nsteps
+    graft_then_edit(ck, oracle, data, n, G)
+
+
+def graft_then_edit(ck, oracle, data, n, G):
+    """Directed histories (what a prune-regraft move followed by a data-point move does): every forest on n-1 of the n data
+    points, every clone's subtree cut out and re-attached below every other clone / at the top, WITHOUT a whole-tree
+    refresh, and then the remaining data point added to - and removed again from - every clone in place.  After every
+    step the vectors of the edited tree must be the exact grid marginal (TLC) of the forest it then represents."""
+    by = {dp.idx: dp for dp in data}
+    extra = by[n - 1]
+    keys = sorted((k for k in oracle if absstate.data_ids(k) == set(range(n - 1)) and not k[1] and len(k[0]) >= 2), key=absstate.key_str)
+    nsteps = 0
+    for key in keys:
+        base = absstate.build(key, data)
+        _, conc = absstate.project(base, full=False)
+        for v in conc["names"]:
+            inside = {m for m in conc["names"] if conc["clade"][m] <= conc["clade"][v]}
+            for target in [None] + [m for m in conc["names"] if m not in inside]:
+                if target == conc["par"].get(v) or (target is None and conc["par"].get(v) == base._ROOT_NODE_NAME):
+                    continue
+                ctx = {"state": absstate.to_json(key), "cut": sorted(conc["clade"][v]), "below": (sorted(conc["clade"][target]) if target is not None else None)}
+                try:
+                    t = base.copy()
+                    sub = t.get_subtree(v)
+                    t.remove_subtree(sub)
+                    t.add_subtree(sub, parent=target)
+                    steps = [("re-attached", t)]
+                    msg = gridoracle.compare_tree(t, oracle, G)
+                    nsteps += 1
+                    if msg is None:
+                        _, c2 = absstate.project(t, full=False)
+                        for m in c2["names"]:
+                            t2 = t.copy()
+                            t2.add_data_point_to_node(extra, m)
+                            nsteps += 1
+                            msg = gridoracle.compare_tree(t2, oracle, G)
+                            if msg:
+                                ctx["then"] = "data point %d added to clone %s" % (extra.idx, sorted(c2["clade"][m]))
+                                break
+                            t2.remove_data_point_from_node(extra, m)
+                            nsteps += 1
+                            msg = gridoracle.compare_tree(t2, oracle, G)
+                            if msg:
+                                ctx["then"] = "data point %d added to clone %s and removed again" % (extra.idx, sorted(c2["clade"][m]))
+                                break
+                except absstate.Inconsistent as ex:
+                    msg = "malformed tree: %s" % ex
+                except Exception as ex:  # noqa
+                    import traceback
+                    if not any("/phyclone/" in f.filename for f in traceback.extract_tb(ex.__traceback__)):
+                        raise
+                    msg = "%s: %s" % (type(ex).__name__, ex)
+                if msg:
+                    ck.violation("C02|graft_then_edit|stale", "forest %s, subtree of clone %s re-attached below %s%s: %s" % (
+                        absstate.key_str(key), ctx["cut"], ctx["below"] if ctx["below"] is not None else "the root", (", then " + ctx["then"]) if "then" in ctx else "", msg), ctx)
+        ck.nontrivial("graft_then_edit:" + absstate.key_str(key))
+    ck.evaluations += nsteps
+    ck.extra["graft_then_edit_steps"] = nsteps
 
 
 def compare_int(tree, key, oracle, G, offsets=None, tol=1e-9):
